@@ -27,8 +27,8 @@ RULE = ('one run = one seeded history on FileStorage (classes without '
         'subset, by undoing the undo; a DB-level arm drives DB.undo / '
         'undoMultiple with two connections; non-trivial = >= 1 undo '
         'committed or refused; distinct = outcome sequence')
-BUDGET = {'quick': {'runs': 6000, 'wall': 300, 'chunk': 25},
-          'thorough': {'runs': 150000, 'wall': 3000, 'chunk': 50}}
+BUDGET = {'quick': {'runs': 8000, 'wall': 300, 'chunk': 25},
+          'thorough': {'runs': 500000, 'wall': 1800, 'chunk': 100}}
 ASSUMPTIONS = [
     'where the property is silent (undo while the current state is an '
     'un-creation other than the undone record) refusal and the '
